@@ -193,6 +193,11 @@ class Runner : public IRunner {
     R r, mr;
     bool hasMr = false;
     apply(op, r, mr, hasMr);
+    // garbage positions (e.g. a broken iterator difference) must reach TLC as a mismatch, not abort
+    // the trace writer, which refuses integers that do not fit a TLC int
+    for (auto& x : r)
+      if (x > 1000000 || x < -1000000)
+        x = -999999;
     ea = a_.p != nullptr;
     eb = b_.p != nullptr;
     na = ma_.size();
